@@ -35,6 +35,7 @@ FIXED = [
  ("C06", "d64a062", "compose_qoperations built M.G, G.M and M.M with the default eps_zero: for an MProcess with eps_zero=1e-4 and an outcome of probability 1e-6, (M.G).rho kept the outcome while M.(G.rho) truncated it (found by peer review of the C06 theorems: the associativity theorem only held for the default threshold)"),
  ("C20", "df6ca25", "a schedule given as a generator / dict / set with well-formed items escaped Experiment validation as raw TypeError / KeyError instead of the schedule-order error (found by peer review of the C20 theorems)"),
  ("C14", "007afc6", "_random_number_to_data fell through to the last index: p=[0.1]*10+[0.0], u=nextafter(1,0) returned outcome 10 of probability 0 (found by peer review: exact-rational model vs float running sum)"),
+ ("C14", "b42e0b1", "QTomography.reset_seed(0) was ignored (`if seed:`): the explicit seed 0 re-seeded with the experiment's old seed_data (found by the reset_seed oracle added for seeded C14-16)"),
 ]
 findings = []
 for f in sorted(glob.glob(os.path.join(HERE, "known_findings.d", "*.json"))):
